@@ -176,6 +176,39 @@ func genTaprootCoverage(g *core.Gen, r *core.Rand, keys []keyT, thin int) []case
 		}
 	}
 
+	// 4b. the number of witness items crosses the compact-size step 252 / 253 (it is part of the serialized
+	//     witness size and thus of the budget): N one-byte items dropped pairwise, then k signature checks
+	for _, nItems := range []int{248, 249, 250, 251, 252, 253} {
+		mkScript := func(k int) []byte {
+			sc := cat(rep(0x6d, nItems/2), rep(0x75, nItems%2), pushBytes(keys[1].xonly))
+			for i := 0; i < k; i++ {
+				sc = append(sc, 0x6e, 0xad)
+			}
+			return append(sc, 0x6d, 0x51)
+		}
+		mkItems := func(sig []byte) [][]byte {
+			items := [][]byte{sig}
+			for i := 0; i < nItems; i++ {
+				items = append(items, []byte{1})
+			}
+			return items
+		}
+		// largest k whose budget is still non-negative
+		kmax := 0
+		for k := 1; k < 60; k++ {
+			b := buildSpend(core.NewRand(1), wTapscript, mkScript(k), sh, consensusAll, &tapInfo{internal: keys[0].priv.PubKey(), leafVer: 0xc0})
+			sp := b.finish(mkItems(rep(1, 64)), nil)
+			if 50+sp.tx.TxIn[0].Witness.SerializeSize()-50*k >= 0 {
+				kmax = k
+			}
+		}
+		for _, k := range []int{kmax, kmax + 1} {
+			addTap("sigops-many-items", consensusAll, mkScript(k), nil, func(b *builtSpend) [][]byte {
+				return mkItems(b.schnorrSig(sigPlan{key: keys[1]}, 0xffffffff, keys))
+			})
+		}
+	}
+
 	// 5. annex placement
 	for _, fl := range flagSets {
 		for _, annex := range [][]byte{{0x50}, {0x50, 0xaa}, append([]byte{0x50}, rep(0x11, 600)...)} {
